@@ -36,6 +36,7 @@ package hdrhist
 //@ func (*Histogram).countsIndexFor
 //@   props C19
 //@   mode bv
+//@   pure
 //@   option cases h.subBucketHalfCountMagnitude == 4 | h.subBucketHalfCountMagnitude == 7 | h.subBucketHalfCountMagnitude == 10 | h.subBucketHalfCountMagnitude == 14 | h.subBucketHalfCountMagnitude == 17
 //@   requires geom(h) && inrange(h, v)
 //@   ensures 0 <= result && result < i64(h.countsLen)
@@ -59,3 +60,88 @@ package hdrhist
 //@   ensures geom(result) && fresh(result) && result.totalCount == 0
 //@   ensures result.lowestTrackableValue == minValue && result.highestTrackableValue == maxValue
 //@   ensures forall i: int :: 0 <= i && i < len(result.counts) ==> result.counts[i] == 0
+
+//@ pred hcases(h *Histogram) = true
+// RecordValues: for every in-range value the record succeeds, exactly one
+// bucket grows by n, and the total grows by n ("TotalCount equals the number
+// of recorded occurrences").
+//@ func (*Histogram).RecordValues
+//@   props C19
+//@   mode bv
+//@   requires geom(h) && inrange(h, v)
+//@   modifies h.totalCount, elems(h.counts)
+//@   ensures result == nil && geom(h)
+//@   ensures h.totalCount == old(h.totalCount) + n
+//@   ensures h.counts[countsIndexFor(h, v)] == old(h.counts[countsIndexFor(h, v)]) + n
+//@   ensures forall j: int :: 0 <= j && j < len(h.counts) && j != countsIndexFor(h, v) ==> h.counts[j] == old(h.counts[j])
+
+//@ func (*Histogram).RecordValue
+//@   props C19
+//@   mode bv
+//@   requires geom(h) && inrange(h, v)
+//@   modifies h.totalCount, elems(h.counts)
+//@   ensures result == nil && geom(h)
+//@   ensures h.totalCount == old(h.totalCount) + 1
+//@   ensures h.counts[countsIndexFor(h, v)] == old(h.counts[countsIndexFor(h, v)]) + 1
+//@   ensures forall j: int :: 0 <= j && j < len(h.counts) && j != countsIndexFor(h, v) ==> h.counts[j] == old(h.counts[j])
+
+//@ func (*Histogram).TotalCount
+//@   props C19
+//@   mode bv
+//@   requires h != nil
+//@   ensures result == h.totalCount
+
+// Reset empties the histogram and keeps its shape.
+//@ func (*Histogram).Reset
+//@   props C19
+//@   mode bv
+//@   requires geom(h)
+//@   modifies h.totalCount, elems(h.counts)
+//@   ensures geom(h) && h.totalCount == 0
+//@   ensures forall j: int :: 0 <= j && j < len(h.counts) ==> h.counts[j] == 0
+//@   loop 1 invariant 0 - 1 <= rangeindex && rangeindex < len(h.counts) && geom(h) && h.totalCount == 0 && (forall j: int :: 0 <= j && j <= rangeindex ==> h.counts[j] == 0)
+//@   loop 1 invariant len(h.counts) >= 0 && (len(h.counts) == 0 ==> rangeindex == 0 - 1)
+
+// The bucket of an in-range value: the smallest bucket whose span contains it.
+//@ func (*Histogram).getBucketIndex
+//@   props C19
+//@   mode bv
+//@   pure
+//@   option cases h.subBucketHalfCountMagnitude == 4 | h.subBucketHalfCountMagnitude == 7 | h.subBucketHalfCountMagnitude == 10 | h.subBucketHalfCountMagnitude == 14 | h.subBucketHalfCountMagnitude == 17
+//@   requires geom(h) && inrange(h, v)
+//@   ensures 0 <= result && result < h.bucketCount
+//@   ensures v < (i64(h.subBucketCount) << (h.unitMagnitude + i64(result)))
+//@   ensures result == 0 || v >= (i64(h.subBucketCount) << (h.unitMagnitude + i64(result) - 1))
+
+// Equivalent-value ranges: v lies in [lowest, highest] of its bucket, the
+// bucket width is 2^(unitMagnitude+bucket) and - above the first bucket - at
+// most v / subBucketHalfCount, i.e. within the configured precision
+// (subBucketHalfCount >= 10^sigfigs). The internal "found out of range
+// bucket" invariant never trips.
+//@ func (*Histogram).lowestEquivalentValue
+//@   props C19
+//@   mode bv
+//@   pure
+//@   option cases h.subBucketHalfCountMagnitude == 4 | h.subBucketHalfCountMagnitude == 7 | h.subBucketHalfCountMagnitude == 10 | h.subBucketHalfCountMagnitude == 14 | h.subBucketHalfCountMagnitude == 17
+//@   requires geom(h) && inrange(h, v)
+//@   ensures 0 <= result && result <= v
+//@   ensures result == ((v >> (h.unitMagnitude + i64(getBucketIndex(h, v)))) << (h.unitMagnitude + i64(getBucketIndex(h, v))))
+
+//@ func (*Histogram).sizeOfEquivalentValueRange
+//@   props C19
+//@   mode bv
+//@   pure
+//@   option cases h.subBucketHalfCountMagnitude == 4 | h.subBucketHalfCountMagnitude == 7 | h.subBucketHalfCountMagnitude == 10 | h.subBucketHalfCountMagnitude == 14 | h.subBucketHalfCountMagnitude == 17
+//@   requires geom(h) && inrange(h, v)
+//@   ensures result >= 1
+//@   ensures result == (i64(1) << (h.unitMagnitude + i64(getBucketIndex(h, v))))
+//@   ensures precision: result == (1 << h.unitMagnitude) || result * i64(h.subBucketHalfCount) <= v
+
+//@ func (*Histogram).highestEquivalentValue
+//@   props C19
+//@   mode bv
+//@   pure
+//@   option cases h.subBucketHalfCountMagnitude == 4 | h.subBucketHalfCountMagnitude == 7 | h.subBucketHalfCountMagnitude == 10 | h.subBucketHalfCountMagnitude == 14 | h.subBucketHalfCountMagnitude == 17
+//@   requires geom(h) && inrange(h, v)
+//@   ensures v <= result
+//@   ensures result == lowestEquivalentValue(h, v) + sizeOfEquivalentValueRange(h, v) - 1
